@@ -61,6 +61,20 @@ def threaded_run(chk, prog, cfg, fn):
             so += [c[3] for c in core.desc_calls(dd) if c[1].endswith("Arc::<T>::new") and len(c) > 3]
         chk.ob("R1.same_flag", lp.path, "the loop reads the flag that run() stores", bool(origin) and set(origin) & set(so) != set(),
                f"load reads {origin}, store writes {so}", cfg=cfg)
+    # the accept loop is left only through the flag == true edge (or when the listener's iterator ends): until the signal is sent the
+    # server keeps accepting, whatever accept() reports
+    leave_edges = []
+    for lb in loads:
+        sw = core.bool_test_of_call(lp, lb)
+        if sw:
+            leave_edges.append((sw[0], sw[1]))
+    for nb in nexts:
+        leave_edges += [(s_, tgt) for (s_, tgt) in some_edge_of(prog, lp, nb, "None")]
+    if stops_after := [blk for blk, t in lp.calls_to(r"ThreadPool::stop$")]:
+        w = core.must_pass(lp, nexts, stops_after + core.return_blocks(lp), through_edges=leave_edges)
+        chk.ob("R1.only_flag_leaves", lp.path, "accept -> end of the accept thread only through the shutdown-flag edge (or the end of incoming())", w is None,
+               "the accept loop can end although the shutdown flag is clear (e.g. on an accept() error such as EMFILE): the server silently stops serving "
+               "before any signal was sent, while run() keeps waiting for the signal", path=w, cfg=cfg)
     stops = [blk for blk, t in lp.calls_to(r"ThreadPool::stop$")]
     w = core.must_pass(lp, [0], core.return_blocks(lp), through_nodes=stops, after_from=False)
     chk.ob("R1.stop_postdominates", lp.path, "every return of the accept thread passes thread_pool.stop()", w is None and bool(stops),
